@@ -80,6 +80,8 @@ pub enum DKind {
 
 /// descriptor ids from here on denote re-entrant descriptors (they call parse_expression + describe themselves)
 pub const REENTRANT_DESC: usize = 1000;
+/// descriptor ids from here on render their node as the EMPTY string (a legal rendering)
+pub const EMPTY_DESC: usize = 100_000;
 
 pub const DKINDS: [DKind; 9] = [
     DKind::Unary,
